@@ -114,6 +114,14 @@ let rec nth_error l = function
            | [] -> None
            | _ :: l0 -> nth_error l0 n1)
 
+(** val removelast : 'a1 list -> 'a1 list **)
+
+let rec removelast = function
+| [] -> []
+| a :: l0 -> (match l0 with
+              | [] -> []
+              | _ :: _ -> a :: (removelast l0))
+
 (** val rev : 'a1 list -> 'a1 list **)
 
 let rec rev = function
@@ -125,6 +133,12 @@ let rec rev = function
 let rec concat = function
 | [] -> []
 | x :: l0 -> app x (concat l0)
+
+(** val map : ('a1 -> 'a2) -> 'a1 list -> 'a2 list **)
+
+let rec map f = function
+| [] -> []
+| a :: t -> (f a) :: (map f t)
 
 (** val flat_map : ('a1 -> 'a2 list) -> 'a1 list -> 'a2 list **)
 
@@ -138,6 +152,12 @@ let rec fold_left f l a0 =
   match l with
   | [] -> a0
   | b :: t -> fold_left f t (f a0 b)
+
+(** val find : ('a1 -> bool) -> 'a1 list -> 'a1 option **)
+
+let rec find f = function
+| [] -> None
+| x :: tl0 -> if f x then Some x else find f tl0
 
 (** val skipn : nat -> 'a1 list -> 'a1 list **)
 
@@ -501,6 +521,13 @@ let rec bsplit s p = match p with
            | Some p0 -> let (l, r) = p0 in Some ((c :: l), r)
            | None -> None)
      else None)
+
+(** val is_boundary : str -> nat -> bool **)
+
+let is_boundary s p =
+  match bsplit s p with
+  | Some _ -> true
+  | None -> false
 
 (** val str_eqb : str -> str -> bool **)
 
@@ -1229,6 +1256,38 @@ let file_version_v2 =
   (Npos (XI (XI (XO (XO (XO XH)))))) :: ((Npos (XO (XI (XI (XO (XI (XO
     XH))))))) :: ((Npos (XO (XI (XO (XO (XI XH)))))) :: []))
 
+(** val default_break_chars : n list **)
+
+let default_break_chars =
+  (Npos (XO (XO (XO (XO (XO XH)))))) :: ((Npos (XI (XO (XO XH)))) :: ((Npos
+    (XO (XI (XO XH)))) :: ((Npos (XO (XI (XO (XO (XO XH)))))) :: ((Npos (XO
+    (XO (XI (XI (XI (XO XH))))))) :: ((Npos (XI (XI (XI (XO (XO
+    XH)))))) :: ((Npos (XO (XO (XO (XO (XO (XI XH))))))) :: ((Npos (XO (XO
+    (XO (XO (XO (XO XH))))))) :: ((Npos (XO (XO (XI (XO (XO
+    XH)))))) :: ((Npos (XO (XI (XI (XI (XI XH)))))) :: ((Npos (XO (XO (XI (XI
+    (XI XH)))))) :: ((Npos (XI (XO (XI (XI (XI XH)))))) :: ((Npos (XI (XI (XO
+    (XI (XI XH)))))) :: ((Npos (XO (XO (XI (XI (XI (XI XH))))))) :: ((Npos
+    (XO (XI (XI (XO (XO XH)))))) :: ((Npos (XI (XI (XO (XI (XI (XI
+    XH))))))) :: ((Npos (XO (XO (XO (XI (XO
+    XH)))))) :: (N0 :: [])))))))))))))))))
+
+(** val escape_char : n **)
+
+let escape_char =
+  Npos (XO (XO (XI (XI (XI (XO XH))))))
+
+(** val double_quotes_special_chars : n list **)
+
+let double_quotes_special_chars =
+  (Npos (XO (XI (XO (XO (XO XH)))))) :: ((Npos (XO (XO (XI (XO (XO
+    XH)))))) :: ((Npos (XO (XO (XI (XI (XI (XO XH))))))) :: ((Npos (XO (XO
+    (XO (XO (XO (XI XH))))))) :: [])))
+
+(** val double_quotes_escape_char : n **)
+
+let double_quotes_escape_char =
+  Npos (XO (XO (XI (XI (XI (XO XH))))))
+
 (** val header : n list **)
 
 let header =
@@ -1766,3 +1825,238 @@ let rec brackets_go s stack =
 
 let bracket_validator s =
   brackets_go s []
+
+(** val mem_N : n -> n list -> bool **)
+
+let rec mem_N c = function
+| [] -> false
+| x :: t -> (||) (N.eqb x c) (mem_N c t)
+
+(** val is_break0 : n -> bool **)
+
+let is_break0 c =
+  mem_N c default_break_chars
+
+(** val is_dq_special : n -> bool **)
+
+let is_dq_special c =
+  mem_N c double_quotes_special_chars
+
+type quote =
+| QDouble
+| QSingle
+| QNone
+
+(** val unescape : n -> str -> str **)
+
+let rec unescape esc0 = function
+| [] -> []
+| c :: t ->
+  if N.eqb c esc0
+  then (match t with
+        | [] -> []
+        | d :: t' -> d :: (unescape esc0 t'))
+  else c :: (unescape esc0 t)
+
+(** val escape : n -> (n -> bool) -> quote -> str -> str **)
+
+let escape esc0 brk q s =
+  match q with
+  | QSingle -> s
+  | _ -> flat_map (fun c -> if brk c then esc0 :: (c :: []) else c :: []) s
+
+(** val extract_go :
+    n -> (n -> bool) -> n list -> nat option -> nat -> nat **)
+
+let rec extract_go esc0 brk rev_line pending0 acc =
+  match rev_line with
+  | [] -> (match pending0 with
+           | Some n0 -> n0
+           | None -> acc)
+  | c :: t ->
+    (match pending0 with
+     | Some n0 ->
+       if N.eqb c esc0
+       then extract_go esc0 brk t None (add acc (clen c))
+       else n0
+     | None ->
+       if brk c
+       then extract_go esc0 brk t (Some acc) (add acc (clen c))
+       else extract_go esc0 brk t None (add acc (clen c)))
+
+(** val extract_word : n -> (n -> bool) -> str -> nat * str **)
+
+let extract_word esc0 brk line =
+  let n0 = extract_go esc0 brk (rev line) None O in
+  let start = sub (blen line) n0 in
+  (match bsplit line start with
+   | Some p -> let (_, w) = p in (start, w)
+   | None -> (start, []))
+
+type scan_mode =
+| MNormal
+| MDouble
+| MEscape
+| MEscapeInDouble
+| MSingle
+
+(** val scan : str -> scan_mode -> nat -> nat -> scan_mode * nat **)
+
+let rec scan s mode idx qidx =
+  match s with
+  | [] -> (mode, qidx)
+  | c :: t ->
+    let next = add idx (clen c) in
+    (match mode with
+     | MNormal ->
+       if N.eqb c (Npos (XO (XI (XO (XO (XO XH))))))
+       then scan t MDouble next idx
+       else if N.eqb c (Npos (XO (XO (XI (XI (XI (XO XH)))))))
+            then scan t MEscape next qidx
+            else if N.eqb c (Npos (XI (XI (XI (XO (XO XH))))))
+                 then scan t MSingle next idx
+                 else scan t MNormal next qidx
+     | MDouble ->
+       if N.eqb c (Npos (XO (XI (XO (XO (XO XH))))))
+       then scan t MNormal next qidx
+       else if N.eqb c (Npos (XO (XO (XI (XI (XI (XO XH)))))))
+            then scan t MEscapeInDouble next qidx
+            else scan t MDouble next qidx
+     | MEscape -> scan t MNormal next qidx
+     | MEscapeInDouble -> scan t MDouble next qidx
+     | MSingle ->
+       if N.eqb c (Npos (XI (XI (XI (XO (XO XH))))))
+       then scan t MNormal next qidx
+       else scan t MSingle next qidx)
+
+(** val find_unclosed_quote : str -> (nat * quote) option **)
+
+let find_unclosed_quote s =
+  let (s0, i) = scan s MNormal O O in
+  (match s0 with
+   | MNormal -> None
+   | MEscape -> None
+   | MSingle -> Some (i, QSingle)
+   | _ -> Some (i, QDouble))
+
+(** val all_adjacent_agree : nat -> n list list -> bool **)
+
+let rec all_adjacent_agree k = function
+| [] -> true
+| b1 :: t ->
+  (match t with
+   | [] -> true
+   | b2 :: _ ->
+     (match nth_error b1 k with
+      | Some x ->
+        (match nth_error b2 k with
+         | Some y -> (&&) (N.eqb x y) (all_adjacent_agree k t)
+         | None -> false)
+      | None -> false))
+
+(** val lcp_len : nat -> nat -> n list list -> nat **)
+
+let rec lcp_len fuel k bs =
+  match fuel with
+  | O -> k
+  | S f -> if all_adjacent_agree k bs then lcp_len f (S k) bs else k
+
+(** val backoff : str -> nat -> nat **)
+
+let rec backoff s n0 = match n0 with
+| O -> O
+| S m -> if is_boundary s n0 then n0 else backoff s m
+
+(** val longest_common_prefix : str list -> str option **)
+
+let longest_common_prefix cands = match cands with
+| [] -> None
+| c0 :: l ->
+  (match l with
+   | [] -> Some c0
+   | _ :: _ ->
+     let bs = map encode cands in
+     let n0 = lcp_len (S (length (encode c0))) O bs in
+     let n' = backoff c0 n0 in
+     if Nat.eqb n' O
+     then None
+     else (match bsplit c0 n' with
+           | Some p -> let (l0, _) = p in Some l0
+           | None -> None))
+
+type dentry = { d_name : str; d_is_dir : bool; d_children : (str * bool) list }
+
+(** val sep : n **)
+
+let sep =
+  Npos (XI (XI (XI (XI (XO XH)))))
+
+(** val rsplit_sep : str -> str * str **)
+
+let rec rsplit_sep = function
+| [] -> ([], [])
+| c :: t ->
+  let (d, f) = rsplit_sep t in
+  (match d with
+   | [] -> if N.eqb c sep then ((c :: []), f) else ([], (c :: f))
+   | _ :: _ -> ((c :: d), f))
+
+(** val lookup_dir : dentry list -> str -> (str * bool) list option **)
+
+let lookup_dir root dir_name = match dir_name with
+| [] -> Some (map (fun d -> (d.d_name, d.d_is_dir)) root)
+| _ :: _ ->
+  let name = removelast dir_name in
+  (match find (fun d -> (&&) (str_eqb d.d_name name) d.d_is_dir) root with
+   | Some d -> if mem_N sep name then None else Some d.d_children
+   | None -> None)
+
+(** val filename_complete :
+    dentry list -> str -> n option -> (n -> bool) -> quote -> (str * str) list **)
+
+let filename_complete root path esc0 brk q =
+  let (dir_name, file_name) = rsplit_sep path in
+  (match lookup_dir root dir_name with
+   | Some ents ->
+     flat_map (fun e ->
+       let (name, isdir) = e in
+       if prefix_b file_name name
+       then let p = app dir_name (app name (if isdir then sep :: [] else []))
+            in
+            (name,
+            (match esc0 with
+             | Some ec -> escape ec brk q p
+             | None -> p)) :: []
+       else []) ents
+   | None -> [])
+
+(** val complete_path : dentry list -> str -> nat * (str * str) list **)
+
+let complete_path root line =
+  match find_unclosed_quote line with
+  | Some p ->
+    let (idx, q) = p in
+    (match q with
+     | QDouble ->
+       let start = add idx (S O) in
+       let word =
+         match bsplit line start with
+         | Some p0 -> let (_, w) = p0 in w
+         | None -> []
+       in
+       (start,
+       (filename_complete root (unescape double_quotes_escape_char word)
+         (Some double_quotes_escape_char) is_dq_special QDouble))
+     | _ ->
+       let start = add idx (S O) in
+       let word =
+         match bsplit line start with
+         | Some p0 -> let (_, w) = p0 in w
+         | None -> []
+       in
+       (start, (filename_complete root word None is_break0 q)))
+  | None ->
+    let (start, word) = extract_word escape_char is_break0 line in
+    (start,
+    (filename_complete root (unescape escape_char word) (Some escape_char)
+      is_break0 QNone))
